@@ -198,6 +198,16 @@ pub fn run(case: &Value) -> Result<Value> {
                 "add" => binop!(a, opnd(&case["b"])?, +),
                 "mul" => binop!(a, opnd(&case["b"])?, *),
                 "sub" => sub(a, opnd(&case["b"])?)?,
+                // the iterator folds `impl Sum for Linear`, `impl Sum for Function`, `impl Product for Function`
+                "sum" => match (a, opnd(&case["b"])?) {
+                    (Opnd::Lin(a), Opnd::Lin(b)) => outf(vec![a, b].into_iter().sum::<Linear>()),
+                    (Opnd::Func(a), Opnd::Func(b)) => outf(vec![a, b].into_iter().sum::<Function>()),
+                    _ => json!({"undefined": true}),
+                },
+                "product" => match (a, opnd(&case["b"])?) {
+                    (Opnd::Func(a), Opnd::Func(b)) => outf(vec![a, b].into_iter().product::<Function>()),
+                    _ => json!({"undefined": true}),
+                },
                 _ => bail!("arith kind {kind}"),
             }
         }
